@@ -150,7 +150,7 @@ Proof.
   destruct (memZ (cdiv outer n) ns); [assumption|]. simpl. right; assumption.
 Qed.
 
-(* ceil(outer / ceil(outer / ceil(outer/n))) = ceil(outer/n): the admitted shape realises the count *)
+(* ceil(outer / ceil(outer / ceil(outer/n))) = ceil(outer/n): the accepted shape realises the count *)
 Lemma cdiv_cdiv outer n : 0 < outer -> 0 < n -> n <= outer ->
   cdiv outer (cdiv outer (cdiv outer n)) = cdiv outer n.
 Proof.
@@ -168,7 +168,7 @@ Proof.
     fold (cdiv outer t0) in *. nia.
 Qed.
 
-(* after admitting n (<= outer), the smallest shape for n's tile count is present *)
+(* after accepting n (<= outer), the smallest shape for n's tile count is present *)
 Lemma try_take_has outer st n :
   0 < outer -> 0 < n -> n <= outer -> adm_inv outer st ->
   In (cdiv outer (cdiv outer n)) (fst (try_take outer st n)).
